@@ -408,14 +408,16 @@ pub(crate) type WalBlock = MemBlock<BlockHeader>;
 
 impl AvailableSpace for BlockZero {
     fn available_space(&self) -> usize {
-        Self::usable_space(self.capacity())
+        // capacity() is already the size of the data area (block size minus header)
+        self.capacity()
             .saturating_sub(self.metadata().block_header.used_bytes as usize)
     }
 }
 
 impl AvailableSpace for WalBlock {
     fn available_space(&self) -> usize {
-        Self::usable_space(self.capacity()).saturating_sub(self.metadata().used_bytes as usize)
+        self.capacity()
+            .saturating_sub(self.metadata().used_bytes as usize)
     }
 }
 
